@@ -16,6 +16,7 @@ static int op_reset(int argc, char **argv)
    codec_reset_all();
    tables_reset();
    frame_reset();
+   tmpltext_reset();
    dump_reset();
    local_reset();
    find_reset();
@@ -35,7 +36,7 @@ static int op_dbg(int argc, char **argv)
    }
 static struct op_entry ops_core[] = { { "reset", op_reset }, { "dbg", op_dbg }, { NULL, NULL } };
 
-static struct op_entry *tables[] = { ops_core, ops_bits, ops_template, ops_ieee, ops_codec, ops_tables, ops_frame, ops_scale, ops_find, ops_local, ops_dump, NULL };
+static struct op_entry *tables[] = { ops_core, ops_bits, ops_template, ops_ieee, ops_codec, ops_tables, ops_frame, ops_scale, ops_find, ops_local, ops_dump, ops_tmpltext, NULL };
 
 int bvp_parse_hex(const char *s, unsigned char **out)
    {
